@@ -87,6 +87,23 @@ func (c11) Gen(rng *rand.Rand, tier string, i int) *sim.Scenario {
 				}
 			}
 		}
+		if wr.v.Entry == "sack" {
+			wr.lis.SynAckDelayUs = int64(pick(rng, 0, between(rng, 1, 3000), between(rng, 1000, 70000)))
+			// several SACK runs towards one target address and port: their handshakes overlap on the wire
+			for _, first := range runs {
+				if first.v.Entry == "sack" && first.lis != nil && chance(rng, 0.5) {
+					old := c.Target
+					c.Target, c.Port = first.call.Target, first.call.Port
+					wr.lis, wr.shared = nil, first
+					for hi := range wr.flow.Hops {
+						if wr.flow.Hops[hi].From == old {
+							wr.flow.Hops[hi].From = c.Target
+						}
+					}
+					break
+				}
+			}
+		}
 		runs = append(runs, wr)
 	}
 	sc := scenarioFor("C11", rng, runs)
